@@ -2193,3 +2193,134 @@ def run_c11(ctx):
 
 
 REGISTRY["C11"] = dict(module="Properties_C11", run=run_c11)
+
+
+def c10_cases(rng, nforests, max_files):
+    cases = []
+    meta = {}
+    for text, top, files in forest_cases(rng, nforests, max_files):
+        # A: the forest through read_file; B: the spliced text through read_string
+        body = forest_script(top, files, "readf") + ["reads %s" % hx(text), "dump"]
+        cid = len(cases)
+        cases.append("\n".join(body) + "\n")
+        meta[cases[-1]] = ("inline", top, files)
+        # with an include directory: files live under inc/
+        f2 = {b"inc/" + k: v for k, v in files.items()}
+        body = ["init"] + ["fs put %s %s" % (hx(k), hx(v)) for k, v in f2.items()] + [
+            "fs put %s %s" % (hx(b"top.cfg"), hx(top)), "incdir %s" % hx(b"inc"), "readf %s" % hx(b"top.cfg"), "dump",
+            "reads %s" % hx(text), "dump"]
+        cases.append("\n".join(body) + "\n")
+        meta[cases[-1]] = ("inline", top, f2)
+        # a custom include function returning several paths for the one directive of a small top file
+        names = list(files.keys())
+        if len(names) >= 2:
+            top2 = b"before = 1;\n@include \"whatever\"\nafter = 2;\n"
+            fl = {n: b"m%d = %d;\n" % (i, i) for i, n in enumerate(names[:3])}
+            spliced = b"before = 1;\n" + b"".join(fl[n] for n in names[:3]) + b"after = 2;\n"
+            body = ["init"] + ["fs put %s %s" % (hx(k), hx(v)) for k, v in fl.items()] + [
+                "incfn multi %s" % ",".join(hx(n) for n in names[:3]), "reads %s" % hx(top2), "dump", "incfn default",
+                "reads %s" % hx(spliced), "dump"]
+            cases.append("\n".join(body) + "\n")
+            meta[cases[-1]] = ("inline", top2, fl)
+    # depth chains and failures (located at the directive)
+    for depth in (9, 10, 11, 12):
+        fl = {}
+        for i in range(1, depth + 1):
+            fl[b"d%d.cfg" % i] = (b"# level %d\n\n@include \"d%d.cfg\"\n" % (i, i + 1)) if i < depth else b"leaf = %d;\n" % depth
+        top = b"a = 1;\n\n\n@include \"d1.cfg\"\n"
+        cases.append("\n".join(forest_script(top, fl, "readf")) + "\n")
+        meta[cases[-1]] = ("depth", depth, None)
+    cases.append("\n".join(forest_script(b"x = 1;\n\n@include \"missing.cfg\"\n", {}, "readf")) + "\n")
+    meta[cases[-1]] = ("errloc", (b"top.cfg", 3), None)
+    cases.append("\n".join(forest_script(b"@include \"a.cfg\"\n", {b"a.cfg": b"y = 2;\n\n\n\n@include \"gone.cfg\"\n"}, "readf")) + "\n")
+    meta[cases[-1]] = ("errloc", (b"a.cfg", 5), None)
+    cases.append("\n".join(forest_script(b"\n@include \"/nonexistent/abs.cfg\"\n", {}, "readf", ["incdir %s" % hx(b"inc")])) + "\n")
+    meta[cases[-1]] = ("errloc", (b"top.cfg", 2), None)
+    cases.append("\n".join(forest_script(b"z = 0;\n@include \"x\"\n", {}, "readf", ["incfn fail %s" % hx(b"custom failure")])) + "\n")
+    meta[cases[-1]] = ("errloc", (b"top.cfg", 2), None)
+    return cases, meta
+
+
+def c10_oracle_factory(meta):
+    def oracle(script, rec):
+        bad = died(script, rec)
+        kind = meta.get(script)
+        al = align(script, rec["impl"])
+        dumps = [parse_dump(out) for op, out in al if op == "dump"]
+        rets = [out[0] for op, out in al if op.split(" ")[0] in ("readf", "reads", "readst") and out]
+        if kind is None:
+            return bad
+        if kind[0] == "inline" and len(dumps) >= 2 and len(rets) >= 2:
+            (r1, _, e1, _), (r2, _, e2, _) = dumps[0], dumps[1]
+            if rets[0] != rets[1]:
+                bad.append("reading the include forest returned %s, reading the spliced text %s" % (rets[0], rets[1]))
+            elif rets[0] == "R i1" and tree_sig(r1, with_pos=False) != tree_sig(r2, with_pos=False):
+                bad.append("the include forest and the spliced text give different configurations")
+            # provenance: the line of that file starts the setting
+            if rets[0] == "R i1":
+                files = dict(kind[2])
+                files[b"top.cfg"] = kind[1]
+                for n in flatten(r1):
+                    if n.name == "-" or n.file == "-":
+                        continue
+                    fn = unhx(n.file)
+                    content = files.get(fn, files.get(fn.split(b"/")[-1]))
+                    if content is None:
+                        if fn == b"" or n.file == "-":
+                            continue
+                        bad.append("setting %s reports file %r which is not part of the forest" % (unhx(n.name), fn))
+                        continue
+                    lines = content.split(b"\n")
+                    nm = unhx(n.name)
+                    if not (1 <= n.line <= len(lines)) or not re.search(rb"(^|[\s;,{(])" + re.escape(nm) + rb"\s*[=:]", b" " + lines[n.line - 1]):
+                        bad.append("setting %r reports %r line %d, which does not contain it" % (nm, fn, n.line))
+                        break
+        elif kind[0] == "depth" and rets:
+            depth = kind[1]
+            e = dumps[0][2] if dumps else None
+            if depth <= 10 and rets[0] != "R i1":
+                bad.append("a chain of %d nested includes failed" % depth)
+            if depth > 10 and (rets[0] != "R i0" or not e or unhx(e[1]) != b"include file nesting too deep"):
+                bad.append("a chain of %d nested includes: %s %s" % (depth, rets[0], e))
+        elif kind[0] == "errloc" and rets and dumps:
+            e = dumps[0][2]
+            fn, line = kind[1]
+            if rets[0] != "R i0" or e[0] != "2" or e[2] == "-" or not unhx(e[2]).endswith(fn) or int(e[3]) != line:
+                bad.append("include failure should be a parse error located at %r line %d; got %s %s" % (fn, line, rets[0], e))
+        return bad
+    return oracle
+
+
+def run_c10(ctx):
+    res = Result()
+    rc = replay_cases(ctx)
+    if rc is not None:
+        cases, meta = rc, {}
+    else:
+        cases, meta = c10_cases(ctx.rng, 40 if ctx.tier == "quick" else 800, 8 if ctx.tier == "quick" else 40)
+    res.rule = ("generated include forests (a text cut at line boundaries into a tree of files: depth <= 4, files ending with "
+                "and without newline, files ending inside a group opened by the parent) read with and without an include "
+                "directory and through a custom multi-path include function; settings, order, values AND per-setting file/line "
+                "compared with the model; model-free: same configuration as config_read_string of the spliced text, each "
+                "setting's reported line of its reported file contains it; chains of 9..12 nested files; missing target at top "
+                "level / nested / absolute path / include-function error located at the directive")
+    res.distinct = len(set(cases))
+    res.distribution["cases"] = len(cases)
+    res.samples = [cases[0][:600]] if cases else []
+    keep = lambda l: l if l.startswith(("R ", "T ", "E ")) else None
+    correspond(ctx, res, cases, line_filter=keep, oracle=c10_oracle_factory(meta),
+               known=lambda s, r, o: match_known("C10", s, r, o), per_proc=8)
+    # known finding F13: replay the witness on the implementation
+    runner = ctx.runner()
+    w = ("init\nfs put %s %s\nincfn multi %s,%s\nreads %s\ndump\n" % (
+        hx(b"a"), hx(b"x=1;\n\n\n"), hx(b"a"), hx(b"b"), hx(b"\n\n@include \"z\"\n")))
+    r = run_single(runner, w)
+    e = next((l for l in r["impl"] if l.startswith("E ")), "")
+    f = e.split(" ")
+    if len(f) >= 5 and f[3] != "-" and unhx(f[3]) == b"b":
+        res.known_hits.append("F13: a later, unopenable path of a multi-path include is reported at the missing file "
+                              "(file 'b', line %s) instead of at the directive (line 3)" % f[4])
+    return res
+
+
+REGISTRY["C10"] = dict(module="Properties_C10", run=run_c10)
